@@ -60,6 +60,8 @@ def parseAction (f : Str) : Option Action :=
     | "collection", [v, qy] => some (.collection (parseJV v) (decS qy))
     | "new", [rid] => some (.new (decS rid))
     | "timeout", [ms] => some (.timeout (int ms))
+    -- microseconds: Go's `int64(d/time.Millisecond)` truncates towards zero; a negative duration panics
+    | "timeoutus", [us] => some (.timeout (if int us < 0 then -1 else (int us) / 1000))
     | "change", props => some (.change (parseProps props))
     | "add", [v, i] => some (.add (parseJV v) (int i))
     | "remove", [i] => some (.remove (int i))
